@@ -29,7 +29,12 @@ ENCODED = [
     'per-path concrete values)']
 ASSUMPTIONS = [
     'values: every alternative of every factor of the class models of '
-    'vlib/values.py plus a class with _yatiml_attributes; other values are '
+    'vlib/values.py plus dump-only models: _yatiml_attributes returning an '
+    'OrderedDict / a plain dict in non-alphabetical order, classes whose '
+    'sweeten replaces the node by a scalar with the same object occurring '
+    'several times, sweeten functions that add non-finite floats / None / '
+    'look-alike strings through set_attribute and set_value, an extra '
+    'attribute named like a parameter (purity only); other values are '
     'outside the bound',
     'the projection of classes whose _yatiml_sweeten restructures the node '
     '(order, company, lamp) is not recomputed here (C05/C15 cover it); for '
@@ -38,7 +43,7 @@ ASSUMPTIONS = [
     'values PyYAML cannot emit at all (lone surrogates) are skipped',
 ]
 
-_MODELS = values.MODELS + [values.HIDDEN_MODEL]
+_MODELS = values.MODELS + values.DUMP_ONLY_MODELS
 _DUMPS = {}
 
 
@@ -96,6 +101,16 @@ def project(v):
     """The object's projection as plain data (reference, from the docs)."""
     if isinstance(v, enum.Enum):
         return v.name
+    if isinstance(v, values.Upper):
+        return str(v).upper()           # Upper._yatiml_sweeten
+    if isinstance(v, values.Postcode):
+        return '%d %s' % (v.digits, v.letters)
+    if isinstance(v, values.Money):
+        return '%d %s' % (v.amount, v.currency.name)
+    if isinstance(v, values.Special):
+        return values._special_projection(v.x)
+    if isinstance(v, values.Nulled):
+        return values._nulled_projection(v.x)
     if isinstance(v, (UserString, yatiml.String, pathlib.PurePath)):
         return str(v)
     if isinstance(v, str):
@@ -144,17 +159,14 @@ def _eq_ordered(a, b):
     return type(a) is type(b) and a == b
 
 
-_NO_PROJECTION = ('order', 'company', 'company2', 'lamp')
+_NO_PROJECTION = ('order', 'company', 'company2', 'lamp', 'collide')
 
 
 def _dump_ok(mi, f, x, f2=None, x2=None):
     if f2 is not None:
         v = values.value2(mi, f, x, f2, x2)
-    elif mi < len(values.MODELS):
-        v = values.value(mi, f, x)
     else:
-        fs = _MODELS[mi][3]
-        v = fs[0][1][x]() if f == 0 and x < len(fs[0][1]) else None
+        v = values.value(mi, f, x)
     if v is None:
         return None
     name = _MODELS[mi][0]
